@@ -491,3 +491,41 @@ func ZZ_C01_secondSyncSeesThePodsOfTheFirst() {
 	}
 	nondet.Assert("C01.second-sync.one-pod-per-node", held[zzNodeName(0)] == 1 && held[zzNodeName(1)] == 1 && len(c.Pods) == 2)
 }
+
+// ZZ_C01_canaryRoleCleansUnscheduledPods: "when a node nevertheless holds several such pods, all but one are
+// deleted and the kept one is a scheduled pod if any ... pods on nodes that stopped being eligible are deleted"
+// on the canary nodes, which only the canary replica set looks after, and for pods that are bound by their
+// node-name affinity and not scheduled yet: canary node0 holds the scheduled canary pod plus an unscheduled
+// duplicate; canary node1 — tainted since it was selected, or not — holds one unscheduled canary pod.
+func ZZ_C01_canaryRoleCleansUnscheduledPods() {
+	c, ds, rsNew, rsOld := zzStore(3)
+	ds.Spec.Strategy.Canary = &datadoghqv1alpha1.ExtendedDaemonSetSpecStrategyCanary{}
+	datadoghqv1alpha1.DefaultExtendedDaemonSetSpec(&ds.Spec, datadoghqv1alpha1.ExtendedDaemonSetSpecStrategyCanaryValidationModeAuto)
+	ds.Status.ActiveReplicaSet = rsOld.Name
+	ds.Status.Canary = &datadoghqv1alpha1.ExtendedDaemonSetStatusCanary{ReplicaSet: rsNew.Name, Nodes: []string{zzNodeName(0), zzNodeName(1)}}
+	node1Tainted := nondet.Bool("canaryNode1.taintedSinceItWasSelected")
+	if node1Tainted {
+		c.Nodes[1].Spec.Taints = []corev1.Taint{{Key: "dedicated", Value: "db", Effect: corev1.TaintEffectNoSchedule}}
+	}
+	dupBinding := 1
+	if nondet.Bool("duplicateIsScheduledToo") {
+		dupBinding = 0
+	}
+	c.Pods = append(c.Pods,
+		zzPod("kept", zzNodeName(0), rsNew.Name, zzHashNew, 0, corev1.PodRunning, true, nondet.Base().Add(-600*1e9)),
+		zzPod("duplicate", zzNodeName(0), rsNew.Name, zzHashNew, dupBinding, corev1.PodPending, false, nondet.Base().Add(-30*1e9)),
+		zzPod("on-node1", zzNodeName(1), rsNew.Name, zzHashNew, 1, corev1.PodPending, false, nondet.Base().Add(-30*1e9)),
+		zzPod("active-2", zzNodeName(2), rsOld.Name, zzHashOld, 0, corev1.PodRunning, true, nondet.Base().Add(-3600*1e9)))
+	_, err := zzReconcile(zzReconciler(c, true), zzNS, rsNew.Name)
+	nondet.Assert("C01.canary-cleanup.noerror", err == nil)
+	deleted := map[string]bool{}
+	for _, e := range c.Log {
+		if e.Kind == "Pod" && e.Verb == "delete" {
+			deleted[e.Name] = true
+		}
+	}
+	nondet.Assert("C01.canary-cleanup.duplicate-removed-scheduled-pod-kept", deleted["duplicate"] && !deleted["kept"])
+	nondet.Assert("C01.canary-cleanup.pod-on-ineligible-canary-node-removed", deleted["on-node1"] == node1Tainted)
+	nondet.Assert("C01.canary-cleanup.other-nodes-untouched", !deleted["active-2"])
+	nondet.Observe("deletes", len(deleted))
+}
